@@ -146,8 +146,26 @@ ADDED2 = {
 for k, v in ADDED2.items():
     CLAIMS[k]["text"] += v
 
+ADDED3 = {
+ "C02": " Wave 4: R-WHOLETEXT (every entry point hands the runner the whole text and a start index).",
+ "C04": " Wave 4: R-CATSTOO (class-level facts consult categories and the subtraction, not only ranges), R-SCRATCH (scratch sets are reset before reuse), R-FAILFIRST (failure is tested before nullability when two branch results are combined).",
+ "C07": " Wave 4: R-PREVINIT (the previous-edge variable of a find-all loop starts at a negative constant, so the first empty match is kept).",
+ "C09": " Wave 4: R-LOOPMATCH (nothing reachable from the replace / split drivers caches a value on the runner's reused Match), R-FOLDEXIT (the folds leave their loop only on no-match or an exhausted count).",
+ "C10": " Wave 4: R-UNITS also tracks len(string) as a byte count and the scan start as a rune-unit sink.",
+ "C11": " Wave 4: R-PROTOCOPY (predefined class prototypes are handed out as deep copies), R-UNLOCK (every Lock / RLock reaches its release on every path, no second acquisition first).",
+ "C12": " Wave 4: R-LOOPMATCH.",
+ "C16": " Wave 4: R-CATSTOO, R-DIALECTSIB (shorthand classes pick their dialect alike outside and inside a class, and \\b with \\w).",
+}
+for k, v in ADDED3.items():
+    CLAIMS[k]["text"] += v
+
+CLAIMS["C06"] = dict(
+   technique="static analysis: method-set / signature comparison on go/types against the standard library's *regexp.Regexp, SSA unit taint (rune positions vs byte offsets) over package compat, guard dominance on go/cfg for groups without captures, delegation check of the find-all limit, sibling agreement of the parser's dialect predicates",
+   text="Decides structural necessary conditions of the adapter returning what Go's regexp returns: every Match*/Find* method of *regexp.Regexp exists on the adapter with an identical signature and is covered by the compile-time witnesses (R-SURFACE); no value computed from Capture.RuneIndex / RuneLength reaches an []int the adapter fills or a bound of a byte slice except through an offset table (R-BYTEUNIT), byte offsets are never compared with rune indexes (R-UNITCMP) and the lazily built offset table is created at the first rune that is not one byte wide (R-LAZYTABLE); a group without captures is reported as -1 pairs / nil / empty and never sliced (R-UNSETPAIR); n == 0 gives nil in every find-all method (R-NZERO); the first empty match is kept and the empty-match-next-to-previous rule is direction-aware (R-PREVINIT, R-DIRFOLD); the RE2 dialect switches of \\w \\d \\s, their forms inside a class and \\b / \\B are taken under the same option predicates (R-DIALECTSIB). It does NOT decide the equality itself: what is matched (leftmost-first vs backtracking semantics, class contents, anchors) is outside this technique.",
+   note="Trusted: go/types for the standard library's method set; the taint is field-based (RuneIndex / RuneLength of regexp2.Capture) and treats indexing an []int as the only conversion to bytes; Compile does not force the RE2 option (the property quantifies over patterns compiled with it).",
+   ref="DESIGN.md §3 C06")
+
 NOT_APPLICABLE = {
- "C06": "Equality between two engines over all common-syntax patterns x inputs x n: truth lives in matching semantics, not in the shape of the adapter; no structural necessary-and-telling condition exists (DESIGN.md §7).",
 }
 
 def main():
